@@ -8,7 +8,10 @@
     X n=v…            `n=v… /bin/ext` (external)          C f n=v… -- a…  function call
     E n=v… -- m|m=v…  `n=v… export m…`                    EX m|m=v        `export m`
     R m|m=v           `readonly m`                        L m|m=v         `typeset m`
-    G m|m=v           `typeset -g m`                      U m…            `unset m…`
+    G m|m=v           `typeset -g m`                      U m… / UV m…    `unset m…` / `unset -v m…`
+    T opts -- m|m=v…  `typeset opts m…` (opts among -g -r -x -X +x +r, in order)
+    D b opts -- m…    `typeset -p opts m…` (b = t), `export -p m…` (e), `readonly -p m…` (r)
+    RET               `return 3` (inside a function body)
     SP a…             `set -- a…`
 
   A refused assignment / unset (read-only) ends the script (the non-interactive shell exits), except
@@ -21,11 +24,13 @@ namespace YashModel.Variable
 structure Iface (σ : Type) where
   step : σ → Op → σ × Res
   get : σ → Name → Option Variable
+  getIn : σ → Name → Scope → Option Variable
   env : σ → List Name → List (Name × String)
   params : σ → List String
 
-def ifaceM : Iface VariableSet := ⟨VariableSet.step, VariableSet.get, VariableSet.env, VariableSet.positionalParams⟩
-def ifaceS : Iface SSet := ⟨SSet.step, lookup, SSet.env, SSet.positionalParams⟩
+def ifaceM : Iface VariableSet :=
+  ⟨VariableSet.step, VariableSet.get, VariableSet.getScoped, VariableSet.env, VariableSet.positionalParams⟩
+def ifaceS : Iface SSet := ⟨SSet.step, lookup, SSet.getScoped, SSet.env, SSet.positionalParams⟩
 
 structure Stmt where
   kind : String
@@ -48,8 +53,15 @@ def splitAssign (t : String) : Name × Option String :=
   | n :: rest => (n, some ("=".intercalate rest))
   | [] => (t, none)
 
+/-- value token: `@a.b` is the array `(a b)`, `@` the empty array, anything else a scalar -/
+def parseVal (v : String) : Value :=
+  match v.toList with
+  | ['@'] => .array []
+  | '@' :: r => .array ((String.ofList r).splitOn ".")
+  | _ => .scalar v
+
 def assigns (ts : List String) : List (Name × Value) :=
-  ts.map fun t => let (n, v) := splitAssign t; (n, Value.scalar (v.getD ""))
+  ts.map fun t => let (n, v) := splitAssign t; (n, parseVal (v.getD ""))
 
 def showV (o : Option Variable) : String :=
   match o with
@@ -58,19 +70,19 @@ def showV (o : Option Variable) : String :=
     let val := match v.value with
       | none => "~"
       | some (.scalar x) => x
-      | some (.array xs) => ":".intercalate xs
+      | some (.array xs) => "@" ++ ":".intercalate xs
     s!"{val}/{if v.exported then 1 else 0}/{if v.isReadOnly then 1 else 0}"
 
-/-- `${n-U}` -/
-def expand (o : Option Variable) : String :=
+/-- the fields of `"${n-U}"`: an array gives one field per element -/
+def expand (o : Option Variable) : List String :=
   match o with
-  | some { value := some (.scalar x), .. } => x
-  | some { value := some (.array xs), .. } => " ".intercalate xs
-  | _ => "U"
+  | some { value := some (.scalar x), .. } => [x]
+  | some { value := some (.array xs), .. } => xs
+  | _ => ["U"]
 
 /-- the fields `vprobe "${x-U}" "${y-U}" "${z-U}" "$#" "$*"` receives -/
 def expOf {σ} (I : Iface σ) (s : σ) : String :=
-  ",".intercalate (scriptNames.map (fun n => expand (I.get s n)) ++
+  ",".intercalate (scriptNames.flatMap (fun n => expand (I.get s n)) ++
     [toString (I.params s).length, " ".intercalate (I.params s)])
 
 /-- what `vprobe` sees in the variable set when it runs -/
@@ -87,19 +99,60 @@ def operandOps (sc : Scope) (t : String) : List Op :=
 
 def operandName (t : String) : Name := (splitAssign t).1
 
-/-- executes statements; returns the state, the lines printed (reversed) and whether the script was
-    aborted -/
+/-- the attribute loop of `typeset::SetVariables::execute` for one operand; `+r` on a read-only
+    variable is an error that skips the remaining attributes of that operand -/
+def applyAttrs {σ} (I : Iface σ) (n : Name) (sc : Scope) : List String → σ → σ
+  | [], s => s
+  | a :: rest, s =>
+    if a = "-r" then applyAttrs I n sc rest (I.step s (.readonly n sc 1)).1
+    else if a = "+r" then
+      (if ((I.get s n).map (·.isReadOnly)).getD false then s else applyAttrs I n sc rest s)
+    else if a = "-x" then applyAttrs I n sc rest (I.step s (.export n sc true)).1
+    else if a = "+x" || a = "-X" then applyAttrs I n sc rest (I.step s (.export n sc false)).1
+    else applyAttrs I n sc rest s
+
+/-- one operand of `typeset [-g] [attrs]`: a refused assignment skips the attributes -/
+def typesetField {σ} (I : Iface σ) (sc : Scope) (attrs : List String) (s : σ) (t : String) : σ :=
+  match runOps I s (operandOps sc t) with
+  | (s1, true) => s1
+  | (s1, false) => applyAttrs I (operandName t) sc attrs s1
+
+/-- `typeset -p` / `export -p` / `readonly -p` (`b` = t | e | r): which variables are selected and
+    which attribute flags the line shows (the text format itself belongs to C07) -/
+def printLines {σ} (I : Iface σ) (s : σ) (b : String) (opts names : List String) : List String :=
+  let sc := if b = "t" && !opts.contains "-g" then Scope.loc else Scope.global
+  let pass (v : Variable) : Bool :=
+    (b != "e" || v.exported) && (b != "r" || v.isReadOnly) &&
+    opts.all fun o =>
+      if o = "-x" then v.exported
+      else if o = "+x" || o = "-X" then !v.exported
+      else if o = "-r" then v.isReadOnly
+      else if o = "+r" then !v.isReadOnly
+      else true
+  let line (n : Name) (v : Variable) : List String :=
+    let flags := if b = "t" then (if v.isReadOnly then "r" else "") ++ (if v.exported then "x" else "") else ""
+    let isArray := match v.value with | some (.array _) => true | _ => false
+    if !pass v then [] else if isArray && flags = "" && b = "t" then [] else ["p " ++ n ++ (if flags = "" then "" else " " ++ flags)]
+  if names.isEmpty then
+    scriptNames.flatMap fun n => match I.getIn s n sc with | some v => line n v | none => []
+  else if names.any (fun n => (I.getIn s n sc).isNone) then []
+  else names.flatMap fun n => match I.getIn s n sc with | some v => line n v | none => []
+
+inductive Status | ok | abort | ret
+  deriving DecidableEq
+
+/-- executes statements; returns the state, the lines printed (reversed) and how it ended -/
 def execStmts {σ} (I : Iface σ) (funs : List (String × List Stmt)) :
-    Nat → σ → List Stmt → List String → σ × List String × Bool
-  | _, s, [], out => (s, out, false)
-  | 0, s, _, out => (s, "fuel" :: out, true)
+    Nat → σ → List Stmt → List String → σ × List String × Status
+  | _, s, [], out => (s, out, .ok)
+  | 0, s, _, out => (s, "fuel" :: out, .abort)
   | fuel+1, s, st :: rest, out =>
     let out := s!"@{st.kind}" :: out
     let fin (s' : σ) (out : List String) :=
       execStmts I funs fuel s' rest (vline I (expOf I s') s' :: out)
     let special (ops : List Op) :=
       match runOps I s ops with
-      | (s', true) => (s', out, true)
+      | (s', true) => (s', out, Status.abort)
       | (s', false) => fin s' out
     match st.kind with
     | "A" | "S" => special (specialCmd (assigns st.pre) [])
@@ -108,17 +161,32 @@ def execStmts {σ} (I : Iface σ) (funs : List (String × List Stmt)) :
         (st.post.flatMap fun t => operandOps .global t ++ [.export (operandName t) .global true]))
     | "EX" => special (st.pre.flatMap fun t => operandOps .global t ++ [.export (operandName t) .global true])
     | "R" => special (st.pre.flatMap fun t => operandOps .global t ++ [.readonly (operandName t) .global 1])
-    | "U" => special (st.pre.map fun n => Op.unset n .global)
+    | "U" | "UV" => special (st.pre.map fun n => Op.unset n .global)
     | "SP" => special [.setParams st.pre]
-    | "L" | "G" =>
-      -- `typeset` is a regular built-in (volatile context around it) and survives a refusal
-      let sc := if st.kind = "L" then Scope.loc else Scope.global
-      let (s1, _) := runOps I s ([Op.push .volatile] ++ st.pre.flatMap (operandOps sc))
-      fin (I.step s1 .pop).1 out
+    | "RET" => (s, out, .ret)
+    | "L" | "G" | "T" =>
+      -- `typeset` is a regular built-in (volatile context around it) and survives errors
+      let opts := if st.kind = "G" then ["-g"] else if st.kind = "T" then st.pre else []
+      let operands := if st.kind = "T" then st.post else st.pre
+      let sc := if opts.contains "-g" then Scope.global else Scope.loc
+      let s1 := (I.step s (.push .volatile)).1
+      let s2 := operands.foldl (typesetField I sc opts) s1
+      fin (I.step s2 .pop).1 out
+    | "D" =>
+      match st.pre with
+      | [] => (s, "bad" :: out, .abort)
+      | b :: opts =>
+        let s1 := if b = "t" then (I.step s (.push .volatile)).1 else s
+        -- `export -p m` / `readonly -p m` of a name that is not a variable: error in a special
+        -- built-in, the shell exits
+        if b != "t" && st.post.any (fun n => (I.getIn s n .global).isNone) then (s, out, .abort)
+        else
+          let out := (printLines I s1 b opts st.post).reverse ++ out
+          fin s out
     | "P" | "N" | "X" =>
       let exp := expOf I s
       match runOps I s ([Op.push .volatile] ++ tempOps (assigns st.pre)) with
-      | (s1, true) => (s1, out, true)
+      | (s1, true) => (s1, out, .abort)
       | (s1, false) =>
         let out :=
           if st.kind = "P" then vline I exp s1 :: out
@@ -128,18 +196,18 @@ def execStmts {σ} (I : Iface σ) (funs : List (String × List Stmt)) :
         fin (I.step s1 .pop).1 out
     | "C" =>
       match st.pre with
-      | [] => (s, "bad" :: out, true)
+      | [] => (s, "bad" :: out, .abort)
       | f :: temps =>
         match funs.lookup f with
-        | none => (s, "bad" :: out, true)
+        | none => (s, "bad" :: out, .abort)
         | some body =>
           match runOps I s ([Op.push .volatile] ++ tempOps (assigns temps)) with
-          | (s1, true) => (s1, out, true)
+          | (s1, true) => (s1, out, .abort)
           | (s1, false) =>
             let s2 := (I.step s1 (.push (.regular st.post))).1
             match execStmts I funs fuel s2 body out with
-            | (s3, out, true) => (s3, out, true)
-            | (s3, out, false) => fin (I.step (I.step s3 .pop).1 .pop).1 out
-    | _ => (s, "bad" :: out, true)
+            | (s3, out, .abort) => (s3, out, .abort)
+            | (s3, out, _) => fin (I.step (I.step s3 .pop).1 .pop).1 out
+    | _ => (s, "bad" :: out, .abort)
 
 end YashModel.Variable
